@@ -646,6 +646,65 @@ pub fn check_against_fold(
     }
 }
 
+/// C11 for allocation queues, through the production path: the restored queues are handed to the
+/// real autoalloc state the way `start_server` does it (`AddQueue` with their recorded ids, the
+/// counter initialised from the restore), then a new queue is created; its id must not be one
+/// the journal mentions.
+async fn check_new_queue_id(
+    obs_rc: &Rc<RefCell<Obs>>,
+    f: &Folded,
+    cut: &CutResult,
+    dir: &Path,
+    label: &str,
+) {
+    use hyperqueue::common::rpc::ResponseToken;
+    use hyperqueue::server::autoalloc::verif::{AutoAllocMessage, AutoAllocSim};
+    if f.max_queue_id == 0 {
+        return;
+    }
+    let events = hyperqueue::server::event::streamer::EventStreamer::new(None);
+    let mut a = AutoAllocSim::new(cut.world.server_ref.clone(), events, cut.info.queue_id_counter);
+    for (id, params, res) in &cut.restored.queue_details {
+        let Ok(params) = serde_json::from_str(params) else {
+            continue;
+        };
+        let worker_resources = res.as_ref().and_then(|r| serde_json::from_str(r).ok());
+        let (t, r) = ResponseToken::new();
+        a.handle_message(AutoAllocMessage::AddQueue {
+            server_directory: dir.to_path_buf(),
+            params,
+            queue_id: Some(*id),
+            worker_resources,
+            response: t,
+        })
+        .await;
+        let _ = r.await;
+    }
+    let (t, r) = ResponseToken::new();
+    a.handle_message(AutoAllocMessage::AddQueue {
+        server_directory: dir.to_path_buf(),
+        params: crate::sim::palette::queue_parameters(7),
+        queue_id: None,
+        worker_resources: None,
+        response: t,
+    })
+    .await;
+    if let Ok(Ok(new_id)) = r.await {
+        obs_rc.borrow_mut().class("new-queue-after-restart");
+        if new_id <= f.max_queue_id {
+            alarm(
+                &mut obs_rc.borrow_mut(),
+                "C11",
+                "allocation queue id reused after restart",
+                format!(
+                    "{label}: a queue created after the restored queues {:?} were re-added got id {new_id}, the journal mentions queue {}",
+                    cut.restored.queues, f.max_queue_id
+                ),
+            );
+        }
+    }
+}
+
 fn copy_prefix(src: &Path, dst: &Path, len: u64) -> std::io::Result<()> {
     let data = std::fs::read(src)?;
     let n = (len as usize).min(data.len());
@@ -794,6 +853,9 @@ pub async fn restore_phase(sim: &mut Sim, seed: u64) {
             }
             {
                 check_against_fold(&mut obs, &f, &cut, &label);
+                drop(obs);
+                check_new_queue_id(&obs_rc, &f, &cut, &params.dir, &label).await;
+                let mut obs = obs_rc.borrow_mut();
                 // worker ids: the first id issued after the restart is counter + 1
                 if cut.info.worker_id_counter.as_num() < f.max_worker_id {
                     alarm(
